@@ -24,7 +24,7 @@ OTHER = {
     "Tag": ["padding", "wiki_markup", "self_closing", "invalid", "implicit", "wiki_style_separator", "closing_wiki_markup"],
     "ExternalLink": ["brackets", "suppress_space"] if False else ["brackets"], "Comment": ["contents"], "Text": ["value"],
 }
-TEXTS = ["x", "a b", "", "{{t|p}}", "[[l|m]] tail", "<b>z</b>", "''i''", " spaced ", "a=b|c", "&amp;", "multi\nline", "日本"]
+TEXTS = ["x", "a b", "", "3", " 2 ", "7", "1", "{{t|p}}", "[[l|m]] tail", "<b>z</b>", "''i''", " spaced ", "a=b|c", "&amp;", "multi\nline", "日本"]
 INVALID = {
     "Heading.level": [0, 7, -1, "9", "x", 100], "HTMLEntity.value": ["notanentity", "x110000", "1114112", "-5", "zz", "12FFFF", "ffffffff", "FFFFFFF", "x12FFFF", "0x41", "", "1e3", "99999999"],
     "HTMLEntity.named": [True], "HTMLEntity.hexadecimal": [True], "HTMLEntity.hex_char": ["y", "", "xx", 5],
@@ -105,6 +105,7 @@ def one_sequence(seed):
             continue
         before = structure(obj)
         before_doc = str(code)
+        old_name = str(obj.name).strip() if cls == "Parameter" else None
         log.append("%s.%s = %r" % (cls, attr, val if not hasattr(val, "nodes") else str(val)))
         try:
             setattr(obj, attr, val)
@@ -129,6 +130,8 @@ def one_sequence(seed):
         if cls == "Parameter" and attr in ("name", "showkey") and not obj.showkey and not NUMKEY.match(str(obj.name).strip()):
             # (edits of nodes INSIDE a name are not assignments to the parameter: only these two setters are judged)
             return log, "a parameter whose name %r is not a positive integer has its key hidden after %s" % (str(obj.name), log[-1]), rejected
+        if cls == "Parameter" and attr == "name" and not obj.showkey and str(obj.name).strip() != old_name:
+            return log, "the name assigned by %s is not rendered: the key stays hidden (%r)" % (log[-1], str(obj)), rejected
         if cls == "Parameter" and attr == "name" and obj.showkey and expect is not None and expect.strip() and expect not in str(obj):
             return log, "the parameter does not render the name assigned by %s: %r" % (log[-1], str(obj)), rejected
         for o in objs:
@@ -148,6 +151,7 @@ def _work(seeds):
 
 def run(tier, seed):
     c = vlib.Check("C18", tier, seed, "proof")
+    vlib.pure_python_parser()
     c.prove("C18.v")
     n = 12000 if tier == "quick" else 400000
     seeds = [seed * 17000023 + i for i in range(n)]
